@@ -316,6 +316,10 @@ package vm
 //@   atcall vm.dumpStack( with (callee_ip int) requires[failed_instruction_stored_nothing;C08,C01] m == iter(m) && mSP(m) <= iter(mSP(m))
 //@        && (forall k string :: mapdom(field[map[string]value.Type](m, "global"), k) == iter(mapdom(field[map[string]value.Type](m, "global"), k)) && field[map[string]value.Type](m, "global")[k] == iter(field[map[string]value.Type](m, "global")[k]))
 //@        && (forall i :: 0 <= i && i < mSP(m) ==> mStack(m, i) == iter(mStack(m, i)))
+// ... and no line is lost: when the reader hands back data together with an error (the last line of an input that
+// does not end in a newline comes with io.EOF), that data is a line and has to be returned; READ fails only
+// when there is nothing to return.
+//@   atcall vm.dumpStack(ctxp, ip, fmt.Errorf( with (callee_ip int) requires[no_line_lost_with_the_error;C17] line == ""
 //
 // C19: the report is about the instruction that failed.
 //@   atcall vm.dumpStack with (callee_ip int, callee_err error) requires[report_points_at_failure;C19] callee_ip == ip && callee_err != nil
